@@ -264,7 +264,7 @@ pub fn e1_spec(id: &str, tier: &str) -> Option<Spec> {
             },
             depth: if quick { 2 } else { 3 },
             alphabet: Box::new(|p: &ql::ex::Program| {
-                let mut a = vec![Op::Set(0, 1), Op::Set(1, 1), Op::Set(0, 0)];
+                let mut a = vec![Op::Set(0, 1), Op::Set(1, 1), Op::Set(0, 0), Op::Set(1, 0)];
                 for n in 0..p.nodes.len() as u8 {
                     a.push(Op::Q(n));
                 }
